@@ -73,6 +73,7 @@ let table : (str * (z list -> z)) list = [
   ("edgelist", judge_edgelist);
   ("climat", judge_climat);
   ("cligraph", judge_cligraph);
+  ("climatd", judge_climatd);
   ("leaf", judge_leaf);
   ("cliverdict", judge_cliverdict);
 ]
